@@ -221,10 +221,21 @@ pub fn gen_orderbook_script(id: usize, rng: &mut Sm, n_calls: usize, dir: &str) 
         }
     }
     verify(&b, &mut calls);
+    // constructor: out-of-range arguments raise OverflowError; `trading` defaults to True
+    calls.push(json!({"m": "__new__", "kind": "orderbook", "args": [overflow_int(rng, 64), 1], "expect": {"exc": "OverflowError"}}));
+    calls.push(json!({"m": "__new__", "kind": "orderbook", "args": [0, overflow_int(rng, 32)], "expect": {"exc": "OverflowError"}}));
+    n_exc += 2;
+    {
+        // default trading flag: a market order placed on a fresh default book is not Rejected
+        let mut fresh: OrderBook<10> = OrderBook::new(3, tick, true);
+        let _ = fresh.create_and_place_order(side_of(true), 5, 1, None);
+        calls.push(json!({"m": "__new__", "kind": "orderbook", "args": [3, tick], "probe": "bid_ask", "expect": {"v": [fresh.bid_ask().0, fresh.bid_ask().1]}}));
+    }
     let n_trades = b.get_trades().len();
     let n = calls.len();
+    let ctor_kwargs = if trading0 && id % 4 < 2 { json!({}) } else { json!({"trading": trading0}) };
     GenOut {
-        script: json!({"id": id, "kind": "orderbook", "ctor": {"args": [t0, tick], "kwargs": {"trading": trading0}}, "calls": calls}),
+        script: json!({"id": id, "kind": "orderbook", "ctor": {"args": [t0, tick], "kwargs": ctor_kwargs}, "calls": calls}),
         py_snapshots: snaps,
         n_calls: n,
         n_exc,
@@ -344,9 +355,16 @@ pub fn gen_stepenv_script(id: usize, rng: &mut Sm, n_calls: usize) -> GenOut {
     env_props(&env, &mut calls, rng, true);
     calls.push(call("get_orders", json!([]), json!({}), json!({"v": orders_json(env.get_orderbook())})));
     calls.push(call("get_trades", json!([]), json!({}), json!({"v": trades_json(env.get_orderbook())})));
+    // constructor argument conversion
+    let which = rng.below(4) as usize;
+    let mut args = vec![json!(1), json!(0), json!(1), json!(10)];
+    args[which] = overflow_int(rng, if which == 2 { 32 } else { 64 });
+    calls.push(json!({"m": "__new__", "kind": "stepenv", "args": args, "expect": {"exc": "OverflowError"}}));
+    n_exc += 1;
     let n = calls.len();
+    let ctor_kwargs = if trading0 && id % 4 < 2 { json!({}) } else { json!({"trading": trading0}) };
     GenOut {
-        script: json!({"id": id, "kind": "stepenv", "ctor": {"args": [seed, t0, tick, step_size], "kwargs": {"trading": trading0}}, "calls": calls}),
+        script: json!({"id": id, "kind": "stepenv", "ctor": {"args": [seed, t0, tick, step_size], "kwargs": ctor_kwargs}, "calls": calls}),
         py_snapshots: vec![],
         n_calls: n,
         n_exc,
@@ -412,11 +430,13 @@ pub fn gen_layout_script(id: usize, rng: &mut Sm, numpy_env: bool, st: &mut Layo
     let center = rng.range(50, 3000);
     let mut calls: Vec<Value> = Vec::new();
     let n_steps = rng.range(2, 12);
+    let mut reenable = false;
     let layout = |m: &str, v: Vec<u32>, asym: bool| -> Value { json!({"m": m, "args": [], "kwargs": {}, "expect": {"v": v}, "layout": true, "asym": asym}) };
     for _ in 0..n_steps {
         // asymmetric by construction: different counts and volumes on the two sides, several levels
-        let nb = rng.range(0, 7) as usize;
-        let na = rng.range(0, 7) as usize;
+        let ladder = rng.chance(0.25);
+        let nb = if ladder { 12 } else { rng.range(0, 7) as usize };
+        let na = if ladder { 12 } else { rng.range(0, 7) as usize };
         let mut sides = Vec::new();
         let mut vols = Vec::new();
         let mut traders = Vec::new();
@@ -424,7 +444,8 @@ pub fn gen_layout_script(id: usize, rng: &mut Sm, numpy_env: bool, st: &mut Layo
         for k in 0..(nb + na) {
             let bid = k < nb;
             let lo_off = if rng.chance(0.15) { 0 } else { 1 };
-            let off = rng.range(lo_off, 9);
+            // ladders populate every level 1..12 on both sides, so the deepest published levels are non-empty
+            let off = if ladder { 1 + (if bid { k } else { k - nb }) as u64 } else { rng.range(lo_off, 12) };
             let p = if bid { center - off } else { center + off } * tick as u64;
             sides.push(bid);
             vols.push(rng.range(1, if bid { 40 } else { 90 }) as u32);
@@ -526,9 +547,22 @@ pub fn gen_layout_script(id: usize, rng: &mut Sm, numpy_env: bool, st: &mut Layo
                 let i = env.place_order(side_of(bid), vol, 9, None).unwrap();
                 calls.push(call("place_order", json!([bid, vol, 9]), json!({}), json!({"v": i})));
             }
+            if rng.chance(0.1) {
+                // a market order in a no-trading step ends Rejected (status 4)
+                env.disable_trading();
+                calls.push(call("disable_trading", json!([]), json!({}), json!({"v": null})));
+                let i = env.place_order(side_of(true), 7, 9, None).unwrap();
+                calls.push(call("place_order", json!([true, 7, 9]), json!({}), json!({"v": i})));
+                reenable = true;
+            }
         }
         env.step(&mut xr);
         calls.push(call("step", json!([]), json!({}), json!({"v": null})));
+        if reenable {
+            env.enable_trading();
+            calls.push(call("enable_trading", json!([]), json!({}), json!({"v": null})));
+            reenable = false;
+        }
         let asym = is_asym(&env);
         st.states += 1;
         if asym {
@@ -547,6 +581,9 @@ pub fn gen_layout_script(id: usize, rng: &mut Sm, numpy_env: bool, st: &mut Layo
     }
     calls.push(json!({"m": "get_market_data", "args": [], "kwargs": {}, "expect": market_data_expect(&env)}));
     if !numpy_env {
+        // one order left unplaced (status New) for the data-frame helpers
+        let i = env.place_order(side_of(false), 3, 2, Some((center * tick as u64) as u32 + 20 * tick)).unwrap();
+        calls.push(call("place_order", json!([false, 3, 2]), json!({"price": (center * tick as u64) as u32 + 20 * tick}), json!({"v": i})));
         let h = env.get_level_2_data_history();
         calls.push(call("get_prices", json!([]), json!({}), json!({"v": [h.prices.0, h.prices.1]})));
         calls.push(call("get_volumes", json!([]), json!({}), json!({"v": [h.volumes.0, h.volumes.1]})));
